@@ -443,22 +443,28 @@ CIRC_ORDER_SIG = ("%s: cells hold CircularRefError on one side and a value on th
 
 
 def circ_order_only(doc, diffs):
-  """All differences are cells with CircularRefError on exactly one side, in tables that have a
-  lookup formula (cycles made of plain cell references are C18's exhaustive domain)."""
+  """Differences caused by a column-level cycle through lookup indexes: at least one cell has
+  CircularRefError on exactly one side, every difference is in a table that has a lookup formula
+  (cycles made of plain cell references are C18's exhaustive domain), and any further difference is a
+  FORMULA cell (a consequence: its inputs include the cells above), never a data cell or a non-cell one."""
   import re
   if not diffs:
     return False
   sch = doc.engine_schema()
+  one_sided = 0
   for d in diffs:
-    m = re.match(r"cell (\w+)\[\d+\]\.\S+: (.*) vs (.*)$", d)
+    m = re.match(r"cell (\w+)\[\d+\]\.(\S+): (.*) vs (.*)$", d)
     if not m:
-      return False
-    a, b = m.group(2).strip("'\""), m.group(3).strip("'\"")
-    if (CIRC in m.group(2)) == (CIRC in m.group(3)):
       return False
     if not any("lookup" in (c[2] or "") for c in sch.get(m.group(1), {}).values()):
       return False
-  return True
+    if (CIRC in m.group(3)) != (CIRC in m.group(4)):
+      one_sided += 1
+      continue
+    info = sch.get(m.group(1), {}).get(m.group(2))
+    if not info or not info[1]:
+      return False
+  return one_sided > 0
 
 
 STALE_LOOKUP_SIG = ("%s: formula with a lookup keyed or ordered on a column that no longer exists held a stale result "
